@@ -209,7 +209,7 @@ def ecc_correct_intra_stream(ecc_manager_intra, ecc_params_intra, hasher_intra, 
     # convert strings to _StringIO object so that we can trick our ecc reading functions that normally works only on files
     fpfile = BytesIO(b(field))
     fpfile_ecc = BytesIO(b(ecc))
-    fpentry_p = {"ecc_field_pos": [0, len(field)]} # create a fake entry_pos so that the ecc reading function works correctly
+    fpentry_p = {"ecc_field_pos": [0, len(ecc)]} # create a fake entry_pos so that the ecc reading function works correctly (the reading loop is bounded by the position in the ecc stream, not in the field)
     # Prepare variables
     field_correct = [] # will store each block of the corrected (or already correct) filepath
     fcorrupted = False # check if field was corrupted
